@@ -43,6 +43,9 @@ def _lines(ctx, L):
 
 
 def correspondence(ctx):
+    # the history-sensitive stream first, while nothing has been validated in this process yet (a memo with a size cap
+    # is full after the sweep below), and once more after it
+    _cross_scheme(ctx)
     L = 6 if ctx.thorough else (5 if ctx.deepen else 4)
     jobs = _lines(ctx, L)
     lines = ["validate %s" % B.cons_line(c) for c in jobs]
@@ -95,7 +98,7 @@ def correspondence(ctx):
                         ctx.disagree(stream + ":member", line + " @%d" % x, out, "ok:_", True, d, spec="no error")
         if name == "pypi":
             ctx.sample({"line": lines[50], "model wf": answers[50], "scheme": name})
-    _cross_scheme(ctx)
+    _cross_scheme(ctx, "c07-cross-after")
     _duplicate_spellings(ctx)
 
 
@@ -213,12 +216,12 @@ SHARED_TEXTS = ["1.0.0", "1.0.0-alpha", "1.0", "1.0.0-1", "1.0.0a", "1.0.0.1", "
                 "1.0.0-beta", "0.9", "1.0.0-rc1", "1.0.1"]
 
 
-def _cross_scheme(ctx):
+def _cross_scheme(ctx, label="c07-cross"):
     """the same constraint texts under several schemes, interleaved: the same text is well-formed in one scheme and
     not in another (1.0.0-alpha sorts after 1.0.0 in deb, before it in semver), so anything remembered about a
     list from one scheme must not leak into the next"""
     from harness import pools
-    rng = ctx.rng("c07-cross")
+    rng = ctx.rng(label)
     ranks = {}
     for name in S.ALL:
         p = pools.Pool(name)
